@@ -2,8 +2,13 @@
 Line-protocol driver for the oracle model and the C17 monitor.
   model   <ops>              : prints one observation line per op line
   monitor C17 <ops> <obs>    : evaluates Spec.C17 on the implementation's observation stream
+  monitor C12 <ops> <obs>    : judges the `oracle export` / `oracle reimport` lines (genesis round trip)
+
+`oracle export` / `oracle reimport batches=<feed>:<counter>,…` are answered by `Irismod.OracleGen`
+(Model/OracleGenesis.lean): the literal ExportGenesis / ValidateGenesis / InitGenesis.
 -/
 import Irismod.Spec.C17
+import Irismod.Spec.C12_Oracle
 import Irismod.Sdk.Line
 
 namespace Driver.Oracle
@@ -146,9 +151,35 @@ def aggLine (fn vals : String) : String :=
   | none => "rej"
   | some r => "ok " ++ r
 
+/-- `batches=<feed>:<counter>,…|-`: the current batch counter of every feed's request context -/
+def parseBatches (a : String) : Option (AMap Name Nat) :=
+  (splitList "," a).foldlM (fun m e =>
+    match e.splitOn ":" with
+    | [n, b] => (nat? b).map fun b => AMap.set m n b
+    | _ => none) ([] : AMap Name Nat)
+
+def exportLine (s : State) : String :=
+  let g := OracleGen.exportGenesis s
+  let v := if OracleGen.validateGenesis Spec.C12Oracle.symbolicAddr g then "ok" else "err"
+  s!"ok validate={v} gen={Spec.C12Oracle.showGenesis g} {showState s}"
+
+def reimportLine (s : State) (batches : String) : State × String :=
+  match parseBatches batches with
+  | none => (s, "bad-op")
+  | some m =>
+    match OracleGen.reimport Spec.C12Oracle.symbolicAddr (fun n => AMap.getD m n 0) s with
+    | .ok s' =>
+      let same := if showState s == showState s' then 1 else 0
+      (s', s!"ok same={same} batches={batches} {showState s'}")
+    | .error (.panic _) => (s, s!"panic same=1 batches={batches} {showState s}")
+    | .error (.reject _) => (s, s!"rej same=1 batches={batches} {showState s}")
+
 def modelLine (s : State) (line : String) : State × String :=
   let t := tokens line
   match t with
+  | ["oracle", "export"] => (s, exportLine s)
+  | ["oracle", "reimport", b] =>
+    if b.startsWith "batches=" then reimportLine s (arg t "batches") else (s, "bad-op")
   | "oracle" :: "reset" :: r =>
     match nat? (arg r "t") with
     | some now => ({ now := now }, "ok " ++ showState { now := now })
@@ -247,6 +278,47 @@ def runMonitor (ops obs : Array String) : IO Unit := do
       | _, _ => out.putStrLn s!"mon C17 FAIL clause=parse line={i+1}"; fails := fails + 1
   out.putStrLn s!"mon C17 done steps={steps} fails={fails}"
 
+/-- C12 (oracle slice): judges the `export` / `reimport` lines of the implementation's stream;
+`pre` is the state of the previous implementation observation -/
+def runMonitorC12 (ops obs : Array String) : IO Unit := do
+  let out ← IO.getStdout
+  if ops.size ≠ obs.size then
+    out.putStrLn s!"mon C12 FAIL clause=stream-length ops={ops.size} obs={obs.size}"
+    return
+  let mut pre : State := {}
+  let mut preObs : List String := []
+  let mut fails := 0
+  let mut steps := 0
+  for i in [0:ops.size] do
+    let t := tokens ops[i]!
+    let o := tokens obs[i]!
+    -- the state part of an observation line: from the `t=` token on
+    let stateToks := o.dropWhile fun x => !x.startsWith "t="
+    match t with
+    | "oracle" :: "agg" :: _ => pure ()
+    | "oracle" :: "aggtol" :: _ => pure ()
+    | ["oracle", "export"] =>
+      steps := steps + 1
+      match parseState o with
+      | some post =>
+        for f in Spec.C12Oracle.checkExport pre (o.head?.getD "") (arg o "validate") (arg o "gen") post (stateToks == preObs) do
+          out.putStrLn (Spec.C12Oracle.failLine f (i+1)); fails := fails + 1
+        pre := post; preObs := stateToks
+      | none => out.putStrLn s!"mon C12 FAIL clause=obs-parse line={i+1}"; fails := fails + 1
+    | "oracle" :: "reimport" :: _ =>
+      steps := steps + 1
+      match parseState o with
+      | some post =>
+        for f in Spec.C12Oracle.checkReimport pre (o.head?.getD "") (arg o "same") post do
+          out.putStrLn (Spec.C12Oracle.failLine f (i+1)); fails := fails + 1
+        pre := post; preObs := stateToks
+      | none => out.putStrLn s!"mon C12 FAIL clause=obs-parse line={i+1}"; fails := fails + 1
+    | _ =>
+      match parseState o with
+      | some post => pre := post; preObs := stateToks
+      | none => out.putStrLn s!"mon C12 FAIL clause=obs-parse line={i+1}"; fails := fails + 1
+  out.putStrLn s!"mon C12 done steps={steps} fails={fails}"
+
 def readLines (p : String) : IO (Array String) := do
   let c ← IO.FS.readFile p
   return (c.splitOn "\n").toArray.filter (· ≠ "")
@@ -255,7 +327,8 @@ def main (args : List String) : IO UInt32 := do
   match args with
   | ["model", ops] => runModel (← readLines ops); return 0
   | ["monitor", "C17", ops, obs] => runMonitor (← readLines ops) (← readLines obs); return 0
-  | _ => IO.eprintln "usage: model <ops> | monitor C17 <ops> <obs>"; return 2
+  | ["monitor", "C12", ops, obs] => runMonitorC12 (← readLines ops) (← readLines obs); return 0
+  | _ => IO.eprintln "usage: model <ops> | monitor C17|C12 <ops> <obs>"; return 2
 
 end Driver.Oracle
 
